@@ -122,6 +122,65 @@ theorem commencePar_spec (html : Bool) (s s' : DC) (x : Xml) (c : Bool) (h : s.c
   · intro hc; simp [hc]
   · intro hc; exact ⟨s1, by simpa using h1, by simp [hc]⟩
 
+/-- closing a `w:p` while exactly one paragraph is open concludes that paragraph — whether it is the
+element's own record or an implicit one (then the second `conclude_paragraph` finds nothing open) -/
+theorem closeStep_par_one (cfg : PartCfg) (s : DC) (x : Xml) (p : Par) (hm : tagMember x.ptag = some "PARAGRAPH")
+    (h1 : s.openPars = [p]) : closeStep cfg s x = s.concludePar := by
+  have hcore : ∀ a, closeStepCore cfg a x = a.concludePar := by intro a; unfold closeStepCore; rw [hm]; rfl
+  unfold closeStep DC.flushImplicit
+  split
+  · exact hcore s
+  · simp only [h1, List.getLast?_singleton]
+    split
+    · cases hc : s.concludePar with
+      | error e => rfl
+      | ok s0 =>
+        simp only [ok_bind]
+        rw [hcore]
+        obtain ⟨_, ho, _⟩ := concludePar_spec s s0 p (by rw [h1]; rfl) hc
+        have : s0.openPars = [] := by rw [ho, h1]; rfl
+        unfold DC.concludePar
+        simp only [this, List.getLast?_nil]; rfl
+    · exact hcore s
+
+theorem noImpl_of_closed {s : DC} (h : s.openPars = []) : NoImpl s := by
+  intro p hp; rw [h] at hp; cases hp
+
+theorem grow_noImpl {s s' : DC} {t : Str} (g : Grow s s' t) (h : NoImpl s) : NoImpl s' := by
+  obtain ⟨r2, r3, hr2, hr3, hmeta, _⟩ := g.top
+  intro p hp
+  rw [hr3] at hp
+  have e : r3.elem = r2.elem := by
+    have := congrArg (·.1) hmeta; simpa [parMeta] using this
+  rw [← Option.some.inj hp, e]; exact h r2 hr2
+
+theorem modTop_noImpl (s : DC) (f : Par → Par) (hf : ∀ p, (f p).elem = p.elem) (h : NoImpl s) : NoImpl (s.modTop f) := by
+  unfold DC.modTop
+  cases hl : s.openPars.getLast? with
+  | none => simp only; exact h
+  | some q =>
+    simp only
+    intro p hp
+    rw [List.getLast?_concat] at hp
+    rw [← Option.some.inj hp, hf]; exact h q hl
+
+/-- while a `w:p` element is open, the innermost open paragraph is not an implicit one -/
+theorem openParagraph_noImpl (cfg : PartCfg) (s s' : DC) (c : Bool)
+    (i : Nat) (p : Option Str) (t : QName) (m : NsMap) (a : List (QName × Str)) (tx tl : Option Str) (ks : List Xml)
+    (h : openParagraph cfg s (.elem i p t m a tx tl ks) c = .ok s') : NoImpl s' := by
+  unfold openParagraph at h
+  obtain ⟨s1a, hc, h2⟩ := bind_ok h
+  obtain ⟨p0, ho, _, helem, _⟩ := commencePar_spec cfg.html s s1a _ c hc
+  obtain ⟨bb, _, h2⟩ := bind_ok h2
+  obtain ⟨s1b, hi, h2⟩ := bind_ok h2
+  have := pure_ok h2; subst this
+  have n1 : NoImpl ({ s1a with bullets := (listPosition bb.1 (.elem i p t m a tx tl ks) ((Xml.elem i p t m a tx tl ks).id?.getD 0)).1 } : DC) := by
+    intro q hq
+    simp only [ho, List.getLast?_concat] at hq
+    rw [← Option.some.inj hq, helem]; rfl
+  have g1 := insertNewRun_grow cfg.html _ s1b bb.2 ⟨p0, by simp [ho]⟩ hi
+  exact modTop_noImpl _ _ (fun _ => rfl) (grow_noImpl g1 n1)
+
 theorem modTop_queued (s : DC) (f : Par → Par) : (s.modTop f).queued = s.queued := by
   unfold DC.modTop; split <;> rfl
 theorem modTop_ranges (s : DC) (f : Par → Par) : (s.modTop f).ranges = s.ranges := by
@@ -141,15 +200,17 @@ theorem elemDepth_par (x : Xml) (hx : x.ptag = paragraphTag) (he : x.isElem = tr
   | comment _ _ => simp [Xml.isElem] at he
   | pi _ => simp [Xml.isElem] at he
 
-/-- **A paragraph that encloses no other paragraph** (its children are flat inline content) adds
-exactly one paragraph record at the end of the document order; its text is the queued note
-label, the list marker and the `inlineText` of its children; open paragraphs around it, comment
-ranges and everything already collected are untouched. -/
-theorem walk_paragraph (cfg : PartCfg) (num : Dict Str (List NumAttr)) (c : Bool) (s s' : DC)
+/-- **A paragraph that encloses no other paragraph** (its children are flat inline content), walked
+from ANY collector state `sIn`: first a pending implicit paragraph is concluded
+(`conclude_implicit_paragraph`, giving `s`); then exactly one paragraph record is added at the end
+of the document order; its text is the queued note label, the list marker and the `inlineText` of
+its children; open paragraphs around it, comment ranges and everything already collected are
+untouched. -/
+theorem walk_paragraph_gen (cfg : PartCfg) (num : Dict Str (List NumAttr)) (c : Bool) (sIn s' : DC)
     (i : Nat) (p : Option Str) (t : QName) (m : NsMap) (a : List (QName × Str)) (tx tl : Option Str) (ks : List Xml)
     (hx : (Xml.elem i p t m a tx tl ks).ptag = paragraphTag) (hk : flatInlineL ks = true)
-    (h : walk cfg num c s (.elem i p t m a tx tl ks) = .ok s') :
-    ∃ par body bb,
+    (h : walk cfg num c sIn (.elem i p t m a tx tl ks) = .ok s') :
+    ∃ s, sIn.flushImplicit (some 4) = .ok s ∧ ∃ par body bb,
       leafParsL s'.root = leafParsL s.root ++ [par] ∧ s'.openPars = s.openPars ∧ s'.queued = [] ∧
       s'.ranges = s.ranges ∧ par.elem = some i ∧
       inlineTextL cfg ks = .ok body ∧ getBullet s.bullets (.elem i p t m a tx tl ks) i = .ok bb ∧
@@ -162,6 +223,10 @@ theorem walk_paragraph (cfg : PartCfg) (num : Dict Str (List NumAttr)) (c : Bool
   have hl : ((Xml.elem i p t m a tx tl ks).ptag == hyperlinkTag) = false := by rw [hx]; exact paragraphTag_ne.2.2
   simp only [walk, hd, hl, Bool.false_eq_true, if_false] at h
   obtain ⟨s1, h1, h⟩ := bind_ok h
+  unfold DC.setCaretOpen at h1
+  obtain ⟨s, h0, h1⟩ := bind_ok h1
+  refine ⟨s, h0, ?_⟩
+  clear h0
   have f1 := setCaret_frame s s1 _ _ h1
   obtain ⟨roots, hr, h⟩ := bind_ok h
   have := pure_ok hr; subst this
@@ -216,7 +281,16 @@ theorem walk_paragraph (cfg : PartCfg) (num : Dict Str (List NumAttr)) (c : Bool
   subst this
   -- close step is `conclude_paragraph`
   obtain ⟨s4, h4, h⟩ := bind_ok h
-  unfold closeStep at h4
+  have hni3 : NoImpl s3 := by
+    intro pp hpp
+    rw [hr3] at hpp
+    have e3 : r3.elem = r2.elem := by
+      have := congrArg (·.1) hmeta3; simpa [parMeta] using this
+    have e1 : q1.elem = q0.elem := by
+      have := congrArg (·.1) hmeta; simpa [parMeta] using this
+    rw [← Option.some.inj hpp, e3, he2, e1, helem]; rfl
+  rw [closeStep_noImpl cfg s3 _ hni3] at h4
+  unfold closeStepCore at h4
   simp only [hm] at h4
   obtain ⟨hl4, ho4, hq4, hrg4, hb4⟩ := concludePar_spec s3 s4 r3 hr3 h4
   have f5 := setCaret_frame s4 s' _ _ h
@@ -257,5 +331,24 @@ theorem walk_paragraph (cfg : PartCfg) (num : Dict Str (List NumAttr)) (c : Bool
     have e1 : q1.lineage = q0.lineage := by
       have := congrArg (fun x => x.2.2.2.1) hmeta; simpa [parMeta] using this
     exact ⟨s1, sb, h1, hsb, by rw [e3, hl2, e1]; exact hlb⟩
+
+/-- the same with no implicit paragraph pending: nothing is concluded first -/
+theorem walk_paragraph (cfg : PartCfg) (num : Dict Str (List NumAttr)) (c : Bool) (s s' : DC)
+    (i : Nat) (p : Option Str) (t : QName) (m : NsMap) (a : List (QName × Str)) (tx tl : Option Str) (ks : List Xml)
+    (hx : (Xml.elem i p t m a tx tl ks).ptag = paragraphTag) (hk : flatInlineL ks = true) (hni : NoImpl s)
+    (h : walk cfg num c s (.elem i p t m a tx tl ks) = .ok s') :
+    ∃ par body bb,
+      leafParsL s'.root = leafParsL s.root ++ [par] ∧ s'.openPars = s.openPars ∧ s'.queued = [] ∧
+      s'.ranges = s.ranges ∧ par.elem = some i ∧
+      inlineTextL cfg ks = .ok body ∧ getBullet s.bullets (.elem i p t m a tx tl ks) i = .ok bb ∧
+      parText par = sjoin (s.queued.map (·.text)) ++ bb.2 ++ body ∧
+      s'.bullets = (listPosition bb.1 (.elem i p t m a tx tl ks) i).1 ∧
+      (c = true → par.lineage = tableLineage) ∧ getPStyle (.elem i p t m a tx tl ks) = .ok par.style ∧
+      (c = false → ∃ sa sb, s.setCaret (some 4) (some t.name) = .ok sa ∧
+        sa.setCaret (some 4) (some (Xml.elem i p t m a tx tl ks).localname) = .ok sb ∧ par.lineage = sb.lineage) := by
+  obtain ⟨s0, h0, rest⟩ := walk_paragraph_gen cfg num c s s' i p t m a tx tl ks hx hk h
+  rw [flushImplicit_noImpl s _ hni] at h0
+  cases h0
+  exact rest
 
 end D2P
